@@ -65,3 +65,29 @@ func VerifDumpTxn[T any](txn *Txn[T]) string {
 	verifDumpNode(&b, txn.root)
 	return b.String()
 }
+
+// VerifMapRep renders the representation of a Map: "empty", "single" or
+// "tree:<structure>".
+func VerifMapRep[K, V any](m Map[K, V]) string {
+	switch {
+	case m.singleton != nil && m.hasTree:
+		return "BOTH"
+	case m.singleton != nil:
+		return "single"
+	case m.hasTree:
+		var b strings.Builder
+		verifDumpNode(&b, m.tree.root)
+		return "tree:" + b.String()
+	}
+	return "empty"
+}
+
+// VerifSetRep renders the representation of a Set: "empty" or "tree:<structure>".
+func VerifSetRep[T any](s Set[T]) string {
+	if !s.hasTree {
+		return "empty"
+	}
+	var b strings.Builder
+	verifDumpNode(&b, s.tree.root)
+	return "tree:" + b.String()
+}
